@@ -139,6 +139,13 @@ TEXT["C11"] = {
     "design_ref": "DESIGN.md section 3, C11",
 }
 
+TEXT["C02"] = {
+    "technique": "property-based testing (rapid) with taint markers + exhaustive filter x input x form sweep; non-interference oracle on the output bytes",
+    "text": "Opt-out-free programs over the whole tag / filter / operator vocabulary (filters drawn from the registry hook, so new ones are covered) are rendered against a context in which every string leaf - map values and keys, slice items, struct fields, []any items, function / method / (T, error) results, Stringers on struct, int and pointer receivers, defined string types, *string - is a marker carrying all five HTML specials, while template text and literals carry none. After deleting the five entities and the engine's constant '<type Value>' renderings, the output must contain none of < > & ' \" : any survivor originated in the context. Every registered filter is additionally applied to 13 tainted inputs in 14 forms, exhaustively.",
+    "note": "Trusted: the marker construction and the whitelist regexes in harness/props/c02_test.go. Opt-outs named by the property are excluded by construction.",
+    "design_ref": "DESIGN.md section 3, C02",
+}
+
 PENDING_REASON = "check not built yet in this build phase (DESIGN.md section 3 describes the planned PBT check); will be claimed once its quick tier is silent on the unchanged tree and kills its mutants"
 
 
